@@ -259,6 +259,9 @@ type Ledger struct {
 	// the error); then positional reads (ReadAt) are cut as well - without the error only sequential reads are,
 	// a positional read may not come back short without saying why
 	ShortErr error
+	// PartialDir: a failing directory read still consumes and returns the entries read so far
+	PartialDir bool
+	PartialN   int // how many entries such a read hands out (at least 1)
 	Reads   int // read operations seen
 	Fired   []string
 	// OpenAtFire: handles open at the moment a fault fired
@@ -267,6 +270,13 @@ type Ledger struct {
 
 func NewLedger() *Ledger {
 	return &Ledger{Open: map[int]string{}, FailAt: -1, FailAt2: -1, ShortAt: -1}
+}
+
+// OpLogCopy returns the kinds and names of the operations seen so far ("kind:name").
+func (l *Ledger) OpLogCopy() []string {
+	l.mu.Lock()
+	defer l.mu.Unlock()
+	return append([]string(nil), l.OpLog...)
 }
 
 // op registers one operation; returns the injected error if this is the one to fail.
@@ -481,12 +491,22 @@ func (f *ledgerFile) Stat() (os.FileInfo, error) {
 }
 func (f *ledgerFile) Readdir(n int) ([]os.FileInfo, error) {
 	if err := f.l.op("readdir", f.name); err != nil {
+		if f.l.PartialDir {
+			// what (*os.File).Readdir does when the lstat of an entry or a later getdents fails: the entries read so
+			// far are consumed and come back together with the error
+			ents, _ := f.File.Readdir(max(1, f.l.PartialN))
+			return ents, err
+		}
 		return nil, err
 	}
 	return f.File.Readdir(n)
 }
 func (f *ledgerFile) Readdirnames(n int) ([]string, error) {
 	if err := f.l.op("readdirnames", f.name); err != nil {
+		if f.l.PartialDir && n != 1 {
+			names, _ := f.File.Readdirnames(max(1, f.l.PartialN))
+			return names, err
+		}
 		return nil, err
 	}
 	return f.File.Readdirnames(n)
